@@ -186,19 +186,8 @@ static void do_A(char *line)
     char *s;
     if (sscanf(line, "A %x %x %x %31s %n", &sections, &modes, &tlds, allow_s, &off) < 4) { printf("{\"err\":\"parse\"}\n"); return; }
     if (strcmp(allow_s, "-") != 0) { have_allow = 1; allow = (int)strtol(allow_s, NULL, 0); }
-    s = hexdup(line + off, &n);
-    {   /* VERIF_ALIGN=1: place the string at a varying offset from the allocator's alignment (terminator still ends the block) */
-        static int amode = -1;
-        if (amode < 0) amode = getenv("VERIF_ALIGN") ? 1 : 0;
-        if (amode) {
-            size_t o = (size_t)((g_case * 7 + 3) % 16);
-            char *blk = malloc(o + n + 1);
-            memcpy(blk + o, s, n + 1);
-            free(s);
-            abase = blk;
-            s = blk + o;
-        } else abase = s;
-    }
+    s = hexdup_in(line + off, &n);
+    abase = s;
     putchar('{');
     first = 1;
     if (sections & 1) {
@@ -306,7 +295,7 @@ static void do_A(char *line)
         putchar('}');
     }
     printf("}\n");
-    free(abase);
+    hexfree(abase);
 }
 
 #ifndef HAVE_IDNKIT
@@ -332,26 +321,99 @@ static void do_X(char *line)
 static void do_K(char *line)
 {
     size_t n;
-    char *s = hexdup(line + 2, &n);
+    char *s = hexdup_in(line + 2, &n);
     g_stage = "is_tld";
     printf("%d\n", is_tld(s, s + n));
-    free(s);
+    hexfree(s);
 }
 
 static void do_L(char *line)
 {
     size_t n;
-    char *s = hexdup(line + 2, &n);
+    char *s = hexdup_in(line + 2, &n);
     g_stage = "is_X_local";
     printf("[%d,%d,%d,%d]\n", is_822_local(s, s + n), is_5321_local(s, s + n), is_5322_local(s, s + n),
            is_6531_local(s, s + n));
-    free(s);
+    hexfree(s);
+}
+
+typedef int (*val_f)(const char *, const char *);
+
+/* G <mask> <unit-hex> <reps> <tail-hex|-> <suffix-hex|-> <prefix-hex|-> : the string unit x reps + tail is built here (it may exceed
+ * 2 GiB, which a hex line cannot carry).  mask bits 0-3: modes; bit 4: the body is a local part (direct local validators, "l");
+ * bit 5: the body is a domain (direct is_ascii_domain / is_ipv4 / is_ipv6 / is_ipaddr / is_special_domain / is_utf8_domain, "d").  With a
+ * prefix or suffix the address prefix+body+suffix also goes through the high-level call in the selected modes ("hl").
+ * Output {"n":bytes,...} or {"skip":"nomem"}. */
+static void do_G(char *line)
+{
+    char uh[256], th[256], sh[512], ph[512];
+    unsigned long long reps;
+    size_t ul, tl, sl, pl, n;
+    char *u, *t, *sfx, *pfx, *buf, *body;
+    int m;
+    unsigned mask;
+    val_f lf[4] = { is_822_local, is_5321_local, is_5322_local, is_6531_local };
+    if (sscanf(line, "G %x %255s %llu %255s %511s %511s", &mask, uh, &reps, th, sh, ph) != 6) { printf("{\"err\":\"parse\"}\n"); return; }
+    u = hexdup(uh, &ul); t = hexdup(th, &tl); sfx = hexdup(sh, &sl); pfx = hexdup(ph, &pl);
+    n = ul * (size_t)reps + tl;
+    buf = malloc(pl + n + sl + 1);
+    if (!buf) { printf("{\"skip\":\"nomem\"}\n"); free(u); free(t); free(sfx); free(pfx); return; }
+    memcpy(buf, pfx, pl);
+    body = buf + pl;
+    if (reps && ul) {                               /* fill by doubling */
+        size_t total = ul * (size_t)reps, have = ul;
+        memcpy(body, u, ul);
+        while (have < total) { size_t k = have < total - have ? have : total - have; memcpy(body + have, body, k); have += k; }
+    }
+    memcpy(body + ul * (size_t)reps, t, tl);
+    body[n] = 0;
+    printf("{\"n\":%zu", n);
+    if (mask & 0x10) {
+        g_stage = "is_X_local";
+        printf(",\"l\":[");
+        for (m = 0; m < 4; m++) {
+            if (m) putchar(',');
+            if (mask & (1u << m)) printf("%d", lf[m](body, body + n)); else printf("null");
+        }
+        putchar(']');
+    }
+    if (mask & 0x20) {
+        int r = -12345, v;
+        g_stage = "is_ascii_domain";
+        printf(",\"d\":{\"ascii\":%d", is_ascii_domain(body, body + n));
+        g_stage = "is_ipv4"; printf(",\"v4\":%d", is_ipv4(body, body + n));
+        g_stage = "is_ipv6"; printf(",\"v6\":%d", is_ipv6(body, body + n));
+        g_stage = "is_ipaddr"; printf(",\"ip\":%d", is_ipaddr(body, body + n));
+        g_stage = "is_special_domain"; printf(",\"special\":%d", is_special_domain(body, body + n));
+        if (mask & 8) {
+            g_stage = "is_utf8_domain";
+            v = is_utf8_domain(&r, body, body + n, false);
+            printf(",\"utf8\":[%d,%d]", v, r);
+        }
+        putchar('}');
+    }
+    if (sl || pl) {
+        int first = 1;
+        memcpy(body + n, sfx, sl);
+        body[n + sl] = 0;
+        printf(",\"hl\":{");
+        for (m = 0; m < 4; m++) {
+            if (!(mask & (1u << m))) continue;
+            if (!first) putchar(',');
+            first = 0;
+            printf("\"%d\":", m);
+            hl_one(buf, pl + n + sl, m, 0, 0, 0);
+        }
+        putchar('}');
+    }
+    printf("}\n");
+    free(buf); free(u); free(t); free(sfx); free(pfx);
 }
 
 static void do_D(char *line)
 {
     size_t n;
-    char *s = hexdup(line + 2, &n);
+    char *s = hexdup_in(line + 2, &n);
     if (n == 0) {
         int r = -12345;
         printf("[%d,%d]\n", is_ascii_domain(s, s), is_utf8_domain(&r, s, s, false));
@@ -359,11 +421,10 @@ static void do_D(char *line)
         dom_section(s, n, 1);
         putchar('\n');
     }
-    free(s);
+    hexfree(s);
 }
 
 /* ---- in-driver enumeration (canonical order: length-major, then lexicographic by token index) ---- */
-typedef int (*val_f)(const char *, const char *);
 static int v_utf8dom0(const char *a, const char *b) { int r; return is_utf8_domain(&r, a, b, false); }
 static int v_utf8dom1(const char *a, const char *b) { int r; return is_utf8_domain(&r, a, b, true); }
 
@@ -409,7 +470,9 @@ static void do_N(char *line)
             char *s;
             int rc;
             for (i = 0; i < len; i++) tot += tlen[idx[i]];
-            s = malloc(tot + 1);
+            size_t ao = align_mode() ? (size_t)((count * 5 + 1) % 16) : 0;
+            char *sbase = malloc(ao + tot + 1);
+            s = sbase + ao;
             memcpy(s, pre, prel); o = prel;
             for (i = 0; i < len; i++) { memcpy(s + o, tok[idx[i]], tlen[idx[i]]); o += tlen[idx[i]]; }
             memcpy(s + o, suf, sufl); o += sufl;
@@ -418,7 +481,7 @@ static void do_N(char *line)
             rc = f(s, s + o);
             /* pack: rc in [-40, 40] -> one printable char */
             putchar((rc >= -40 && rc <= 40) ? (char)(80 + rc) : '!');
-            free(s);
+            free(sbase);
             count++;
             if ((count & 0x3fff) == 0) putchar('\n');
             /* next */
@@ -456,13 +519,15 @@ static void do_U(char *line)
         char *s;
         for (i = 0; i < nb; i++) { x[i] = (unsigned char)(v >> (8 * (nb - 1 - i))); if (!x[i]) nul = 1; }
         if (nul) continue;
-        s = malloc(prel + (size_t)nb + sufl + 1);
+        size_t ao = align_mode() ? (size_t)((count * 5 + 1) % 16) : 0;
+        char *sbase = malloc(ao + prel + (size_t)nb + sufl + 1);
+        s = sbase + ao;
         memcpy(s, pre, prel); memcpy(s + prel, x, (size_t)nb); memcpy(s + prel + nb, suf, sufl);
         s[prel + nb + sufl] = 0;
         g_case = (long)v;
         rc = f(s, s + prel + nb + sufl);
         putchar((rc >= -40 && rc <= 40) ? (char)(80 + rc) : '!');
-        free(s);
+        free(sbase);
         count++;
         if ((count & 0x3fff) == 0) putchar('\n');
     }
@@ -541,6 +606,7 @@ int main(void)
         case 'A': do_A(line); break;
 #ifndef HAVE_IDNKIT
         case 'L': do_L(line); break;
+        case 'G': do_G(line); break;
         case 'K': do_K(line); break;
         case 'X': do_X(line); break;
         case 'D': do_D(line); break;
